@@ -17,8 +17,9 @@ BUILD = os.path.join(VERIF, ".build")
 GUARD = "opensuse_rapidquilt_verif"
 NCPU = max(1, min(16, os.cpu_count() or 1))
 
-HARNESS_BIN = os.path.join(BUILD, "harness", "release", "rqh")
-RQ_BIN = os.path.join(BUILD, "bin", "release", "rapidquilt")
+_tag = "" if REPO == "/repo" else "-" + hashlib.sha1(REPO.encode()).hexdigest()[:10]
+HARNESS_BIN = os.path.join(BUILD, "harness" + _tag, "release", "rqh")
+RQ_BIN = os.path.join(BUILD, "bin" + _tag, "release", "rapidquilt")
 SHIM_SO = os.path.join(BUILD, "faultshim.so")
 
 
@@ -71,27 +72,42 @@ def _run_build(cmd, cwd, env, what):
     log("[build] %s ok in %.1fs" % (what, time.time() - t0))
 
 
+def harness_dir():
+    """The harness crate names /repo as a path dependency.  For a run against another copy of the repository
+    (VERIF_REPO, used by background runs on a snapshot) a copy of the crate with that path is generated."""
+    hdir = os.path.join(VERIF, "harness")
+    if REPO == "/repo":
+        return hdir, os.path.join(BUILD, "harness")
+    tag = hashlib.sha1(REPO.encode()).hexdigest()[:10]
+    alt = os.path.join(BUILD, "harness-src-" + tag)
+    os.makedirs(alt, exist_ok=True)
+    shutil.copytree(os.path.join(hdir, "src"), os.path.join(alt, "src"), dirs_exist_ok=True)
+    toml = open(os.path.join(hdir, "Cargo.toml")).read().replace('path = "/repo"', 'path = "%s"' % REPO)
+    if not os.path.exists(os.path.join(alt, "Cargo.toml")) or open(os.path.join(alt, "Cargo.toml")).read() != toml:
+        open(os.path.join(alt, "Cargo.toml"), "w").write(toml)
+    return alt, os.path.join(BUILD, "harness-" + tag)
+
+
 def build_harness():
     """(Re)build the in-process harness against /repo's working tree."""
+    global HARNESS_BIN
     with BuildLock("harness"):
-        hdir = os.path.join(VERIF, "harness")
+        hdir, tdir = harness_dir()
         lock_src = os.path.join(REPO, "Cargo.lock")
         lock_dst = os.path.join(hdir, "Cargo.lock")
         # the harness resolves the same dependency versions as the repository
         if not os.path.exists(lock_dst):
             shutil.copy(lock_src, lock_dst)
-        cmd = ["cargo", "build", "--release", "--offline", "--target-dir", os.path.join(BUILD, "harness")]
+        cmd = ["cargo", "build", "--release", "--offline", "--target-dir", tdir]
         env = clean_env()
-        if REPO != "/repo":
-            cmd += ["--config", 'patch."/repo".rapidquilt.path="%s"' % REPO]
         _run_build(cmd, hdir, env, "harness")
-    return HARNESS_BIN
+    return os.path.join(tdir, "release", "rqh")
 
 
 def build_binary(variant="bin", extra_rustflags=""):
     """(Re)build the rapidquilt binary from /repo's working tree with the hook guard on."""
     with BuildLock(variant):
-        target = os.path.join(BUILD, variant)
+        target = os.path.join(BUILD, variant + _tag)
         env = clean_env({"RUSTFLAGS": ("--cfg %s %s" % (GUARD, extra_rustflags)).strip()})
         cmd = ["cargo", "build", "--release", "--offline", "--bin", "rapidquilt",
                "--config", "profile.release.lto=false", "--config", "profile.release.debug=1",
@@ -271,24 +287,24 @@ def get_seed():
         return 1
 
 
-HARNESS_CHECKED_BIN = os.path.join(BUILD, "harness", "checked", "rqh")
+HARNESS_CHECKED_BIN = os.path.join(BUILD, "harness" + _tag, "checked", "rqh")
 
 
 def build_harness_checked():
     """harness + libpatch with overflow checks and debug assertions on (arithmetic sanitizer)"""
     with BuildLock("harness"):
-        hdir = os.path.join(VERIF, "harness")
+        hdir, tdir = harness_dir()
         lock_dst = os.path.join(hdir, "Cargo.lock")
         if not os.path.exists(lock_dst):
             shutil.copy(os.path.join(REPO, "Cargo.lock"), lock_dst)
-        _run_build(["cargo", "build", "--profile", "checked", "--offline", "--target-dir", os.path.join(BUILD, "harness")], hdir, clean_env(), "harness (overflow-checks, debug-assertions)")
-    return HARNESS_CHECKED_BIN
+        _run_build(["cargo", "build", "--profile", "checked", "--offline", "--target-dir", tdir], hdir, clean_env(), "harness (overflow-checks, debug-assertions)")
+    return os.path.join(tdir, "checked", "rqh")
 
 
 def build_tsan_binary():
     """rapidquilt with ThreadSanitizer (nightly, -Zbuild-std); hooks on"""
     with BuildLock("tsan"):
-        target = os.path.join(BUILD, "tsan")
+        target = os.path.join(BUILD, "tsan" + _tag)
         env = clean_env({"RUSTFLAGS": "-Zsanitizer=thread --cfg has_std --cfg %s" % GUARD})
         cmd = ["cargo", "+nightly", "build", "--release", "--offline", "-Zbuild-std", "--target", "x86_64-unknown-linux-gnu", "--bin", "rapidquilt",
                "--config", "profile.release.lto=false", "--target-dir", target, "--manifest-path", os.path.join(REPO, "Cargo.toml")]
